@@ -66,7 +66,37 @@ fn run_comp_history(c: &mut CompressorOxide, input: &[u8], h: &CHist) {
 }
 
 /// Probe: compress `data` under a fixed schedule, return the per-call observations.
+/// chunk sentinel: the probe changes the level in mid-stream (level 0 for the first 100 bytes with
+/// flush None, then level 6 for the rest) - documented as unsupported in general, but whatever it
+/// does, it must do the same on a reset object and on a new one
+const LEVEL_SWITCH: usize = usize::MAX - 1;
+
 fn comp_probe(c: &mut CompressorOxide, data: &[u8], chunk: usize, cap: usize) -> Vec<(i32, usize, usize, Vec<u8>)> {
+    if chunk == LEVEL_SWITCH {
+        let r = guarded(|| {
+            let mut obs = vec![];
+            c.set_compression_level_raw(0);
+            let k = data.len().min(100);
+            let mut out = vec![0u8; cap];
+            let (st, ni, no) = compress(c, &data[..k], &mut out, TDEFLFlush::None);
+            out.truncate(no.min(cap));
+            obs.push((st as i32, ni, no, out));
+            c.set_compression_level_raw(6);
+            let mut ip = ni.min(k);
+            for _ in 0..10_000 {
+                let mut out = vec![0u8; cap];
+                let (st, ni, no) = compress(c, &data[ip..], &mut out, TDEFLFlush::Finish);
+                out.truncate(no.min(cap));
+                obs.push((st as i32, ni, no, out));
+                ip += ni.min(data.len() - ip);
+                if st as i32 != 0 {
+                    break;
+                }
+            }
+            obs
+        });
+        return r.unwrap_or_else(|_| vec![(-99, 0, 0, vec![])]);
+    }
     let mut obs = vec![];
     let mut ip = 0;
     let mut calls = 0;
@@ -206,7 +236,7 @@ pub fn run(tier: &str) -> i32 {
             used2.reset();
             let mut out = vec![];
             for (pi, p) in probes.iter().enumerate() {
-                for (chunk, cap) in [(usize::MAX, 400_000usize), (100, 64)] {
+                for (chunk, cap) in [(usize::MAX, 400_000usize), (100, 64), (LEVEL_SWITCH, 400_000)] {
                     if p.data.len() > 10_000 && chunk == 100 {
                         continue;
                     }
@@ -231,7 +261,7 @@ pub fn run(tier: &str) -> i32 {
                         rep.violation(
                             "C18/CompressorOxide/reset/output-differs",
                             format!("after history {:?} on {} and reset(), probe {} (chunk {}, cap {}) differs from a fresh {}", h.calls, ins[h.input].name, probes[pi].name, chunk as isize, cap, cfg.name()),
-                            json!({"kind": "comp", "hist_input": ins[h.input].name, "hist_calls": h.calls, "cfg": cfg.to_json(), "probe": probes[pi].name, "chunk": chunk.min(1 << 40), "cap": cap}),
+                            json!({"kind": "comp", "hist_input": ins[h.input].name, "hist_calls": h.calls, "cfg": cfg.to_json(), "probe": probes[pi].name, "chunk": chunk.min(1 << 40), "level_switch": chunk == LEVEL_SWITCH, "cap": cap}),
                         );
                     }
                     if !det {
@@ -547,6 +577,7 @@ pub fn replay(v: &Value) -> Option<String> {
             let h = CHist { input: 0, calls: calls_of(&v["hist_calls"]) };
             let probe = comp_probes().into_iter().find(|p| Some(p.name.as_str()) == v["probe"].as_str())?;
             let (chunk, cap) = (unlim(v["chunk"].as_u64().unwrap_or(u64::MAX)), v["cap"].as_u64().unwrap_or(400_000) as usize);
+            let chunk = if v["level_switch"].as_bool().unwrap_or(false) { LEVEL_SWITCH } else { chunk };
             let r = guarded(|| {
                 let mut used = cfg.make();
                 run_comp_history(&mut used, &input.data, &h);
